@@ -73,7 +73,7 @@ func init() {
 	core.Register(&core.Property{
 		ID:    "C09",
 		Level: "model_checking",
-		Rule: "universe = all sequences of length 2 and 3 (thorough: also length 4 over the 8 most interacting changes) over a catalogue of 25 interacting changes (a change that renames an import and one that names it under the new name, a change that adds an import with its first use and one guarded by that import, an unwrapping change and one with a repeated metavariable meeting original and introduced code, a change that copies captured code to a later place and one that matches both levels of the result, an import-guarded change on a file where a parameter shadows the package name, a deletion of a statement that contains a comment group, a change that uses the metavariable names of the others as ordinary names, B matches only A's output, duplication, consumption of what a later change needs, no-ops, a change failing with an unbound '+' metavariable, a change whose result alone is unparseable, statement/declaration/import changes; repetitions allowed) x 14 files x packaging {one patch file, repeated -p (same path for a repeated change), -P list, -P list with blank lines and without final newline, stdin, -p mixed with -P, library API}. " +
+		Rule: "universe = all sequences of length 2 and 3 (thorough: also length 4 over the 8 most interacting changes) over a catalogue of 27 interacting changes (a change that generates nested calls and one that matches both levels, a change that renames an import and one that names it under the new name, a change that adds an import with its first use and one guarded by that import, an unwrapping change and one with a repeated metavariable meeting original and introduced code, a change that copies captured code to a later place and one that matches both levels of the result, an import-guarded change on a file where a parameter shadows the package name, a deletion of a statement that contains a comment group, a change that uses the metavariable names of the others as ordinary names, B matches only A's output, duplication, consumption of what a later change needs, no-ops, a change failing with an unbound '+' metavariable, a change whose result alone is unparseable, statement/declaration/import changes; repetitions allowed) x 15 files x packaging {one patch file, repeated -p (same path for a repeated change), -P list, -P list with blank lines and without final newline, stdin, -p mixed with -P, library API}. " +
 			"Family big: one patch file of 1400 / 22000 (thorough 88000) changes (70 KiB / 1.1 MiB / 4.2 MiB) through -p, stdin and the library. Differential oracle without model: the combined run's result is canonically identical to the chain of single-change runs, each on the bytes the previous one produced; a failing step makes the combined run exit non-zero and leave the file byte-identical. non-trivial = at least two changes of the history apply in the chain",
 		Assumptions: []string{"histories in which a chain step fails only because its intermediate text does not parse, while the combined run reaches a parseable result, are enumerated but excluded from the verdict"},
 		Bounds: func(tier string) map[string]any {
@@ -93,7 +93,7 @@ func c09MaxLen(tier string) int {
 	return 3
 }
 
-var c09Order = []string{"A", "B", "C", "D", "E", "F", "G", "H", "I", "J", "K", "L", "M", "N", "O", "Q", "R", "S", "T", "U", "V", "W", "X", "Y", "Z"}
+var c09Order = []string{"A", "B", "C", "D", "E", "F", "G", "H", "I", "J", "K", "L", "M", "N", "O", "Q", "R", "S", "T", "U", "V", "W", "X", "Y", "Z", "P1", "P2"}
 
 func c09Changes() map[string]*model.Change {
 	xm := []model.MetaVar{{Name: "x", Kind: "expression"}}
@@ -131,6 +131,9 @@ func c09Changes() map[string]*model.Change {
 		// Y renames the name of an import; Z is a later change that names the import under its new name
 		"Y": {Name: "Y", Kind: "expr", Meta: xm, Imports: []model.Import{{Tag: "-", Name: "foo", Path: "pk/bar"}, {Tag: "+", Name: "baz", Path: "pk/bar"}}, Lines: model.L("-foo.F(x)", "+baz.F(x)")},
 		"Z": {Name: "Z", Kind: "expr", Meta: xm, Imports: []model.Import{{Tag: "-", Name: "baz", Path: "pk/bar"}, {Tag: "+", Path: "pk/qux"}}, Lines: model.L("-baz.F(x)", "+qux.F(x)")},
+		// P1 generates nested calls (all generated tokens carry the position of the replaced site); P2 matches both levels
+		"P1": {Name: "P1", Kind: "expr", Meta: xm, Lines: model.L("-old(x)", "+nest(nest(x))")},
+		"P2": {Name: "P2", Kind: "expr", Lines: model.L("-nest(DOTS_1)", "+done(DOTS_1)")},
 		"N": {Name: "N", Kind: "expr", Meta: xm, Imports: []model.Import{{Tag: "+", Path: "new/q"}}, Lines: model.L("-b1(x)", "+q.B1(x)")},
 	}
 }
@@ -147,6 +150,7 @@ var c09Files = [][2]string{
 	{"commented", "package p\n\nfunc f1() {\n\tsetup0()\n\tdebug(func() {\n\t\t// inner comment\n\t\twork()\n\t})\n\tv := a1(1) // first\n\t// own line\n\tmid() /* inner */\n\tuse(v) // last\n\ta1(2) // keep\n\tb1(3)\n}\n\n// doc of g\nfunc g() {\n\tc1(4, 4) // pair\n}\n"},
 	{"wraps", "package p\n\nimport \"pk/foo\"\n\nfunc f1(foo T) {\n\tfirst(wrap(1))\n\tmid()\n\tlast()\n\tuse(a1(foo.Bar()))\n\t_ = foo.Bar()\n}\n"},
 	{"renamed", "package p\n\nimport foo \"pk/bar\" // why\n\nfunc f1() {\n\tfoo.F(1)\n\ta1(2)\n}\n"},
+	{"nests", "package p\n\nfunc f1() {\n\told(1)\n\tnest(nest(2))\n\ta1(old(3))\n}\n"},
 	{"timed", "package p\n\nimport \"fmt\"\n\nfunc g() {\n\tfmt.Println(now())\n\ta1(1)\n}\n"},
 	{"pairs", "package p\n\nfunc f1(v int) {\n\tpair(v, wrap(v))\n\tpair(wrap(v.w), v.w)\n\ta1(v)\n}\n"},
 	{"nested", "package p\n\nvar _ = a1(a1(1))\n\nfunc f2() {\n\tb1(2)\n}\n"},
@@ -189,6 +193,8 @@ func c09Gen(tier string, emit func(any)) {
 				newer, written["commented"], written["wraps"] = true, true, true
 			case strings.Contains("UV", id):
 				newer, written["timed"] = true, true
+			case id == "P1" || id == "P2":
+				newer, written["nests"] = true, true
 			case strings.Contains("YZ", id):
 				newer, written["renamed"] = true, true
 			case strings.Contains("WX", id):
